@@ -734,7 +734,14 @@ func parseParams(s string) ([]Param, error) {
 		}
 
 		if r == '(' {
-			part := getBracketedString(s, '(', ')')
+			part, ok := getBracketedString(s, '(', ')')
+			if !ok {
+				// TODO: Add position to this error.
+				return nil, &Error{
+					Type: ErrInvalidUnionType,
+					Hint: s,
+				}
+			}
 			var types ParamType
 			for _, c := range part {
 				typ, ok := parseParamType(c)
@@ -782,7 +789,14 @@ func parseParams(s string) ([]Param, error) {
 					Hint: params[n].Type.String(),
 				}
 			}
-			part := getBracketedString(s, '<', '>')
+			part, ok := getBracketedString(s, '<', '>')
+			if !ok {
+				// TODO: Add position to this error.
+				return nil, &Error{
+					Type: ErrInvalidSubtype,
+					Hint: s,
+				}
+			}
 			sub, err := parseParams(part)
 			if err != nil {
 				return nil, err
@@ -802,7 +816,7 @@ func parseParams(s string) ([]Param, error) {
 	return params, nil
 }
 
-func getBracketedString(s string, open, close rune) string {
+func getBracketedString(s string, open, close rune) (string, bool) {
 
 	var depth int
 
@@ -820,12 +834,12 @@ func getBracketedString(s string, open, close rune) string {
 		if c == close {
 			depth--
 			if depth == 0 {
-				return s[utf8.RuneLen(open):pos]
+				return s[utf8.RuneLen(open):pos], true
 			}
 		}
 	}
 
-	return ""
+	return "", false
 }
 
 // A LambdaNode represents a user-defined JSONata function.
